@@ -44,7 +44,7 @@ def rand_noise(r, next_id):
     ops = []
     mc_changed = False
     for _ in range(r.range(0, 10)):
-        k = r.below(12)
+        k = r.below(13)
         if k == 0:
             ops.append(('mc', r.choice('ns'), r.choice('ew')))
             mc_changed = True
@@ -70,6 +70,8 @@ def rand_noise(r, next_id):
             i = next_id[0]
             next_id[0] += 1
             ops.append(('tract', i, r.choice(['NE/4', 'Lots 1 - 3', 'N2 NE']), r.choice(TRS_STRS), r.choice([None, 'parse_qq', 'clean_qq']), r.choice([None, True])))
+        elif k == 12:
+            ops.append(rand_construct(r))
         elif k == 10:
             ops.append(('find_twprge', r.choice(PROBE_TEXTS + SENSITIVE_TEXTS[:2]), None, None, r.chance(1, 2), r.chance(1, 2)))
         else:
@@ -83,8 +85,18 @@ def rand_noise(r, next_id):
     return ops
 
 
+def rand_construct(r):
+    """TRS.from_twprgesec with components that may lack a direction (filled from the defaults in force at the call)"""
+    twp = r.choice([154, 27, '154', '154n', '27s', 1, None])
+    rge = r.choice([97, 4, '97', '97w', '4e', 2, None])
+    sec = r.choice([14, 9, '14', '01', None, 100])
+    return ('from_twprgesec', twp, rge, sec, r.choice([None, None, None, 's', 'n']), r.choice([None, None, None, 'e', 'w']))
+
+
 def rand_probe(r, next_id):
-    k = r.below(6)
+    k = r.below(7)
+    if k == 6:
+        return [rand_construct(r)]
     i = next_id[0]
     next_id[0] += 1
     if k in (0, 1):
@@ -120,11 +132,19 @@ def run(ctx):
         cases.append((noise, probe))
     with ThreadPoolExecutor(max_workers=16) as ex:
         refs = list(ex.map(lambda c: fresh(c[1]), cases))
+        # the whole history replayed in a process of its own: what this process did before (earlier histories of this
+        # very run) must not show in any output either
+        whole = list(ex.map(lambda c: fresh(c[0] + c[1]), cases))
     histories = []
-    for (noise, probe), ref in zip(cases, refs):
+    for (noise, probe), ref, ref_all in zip(cases, refs, whole):
         ops = noise + probe
         out = hist.run_history(ops)
         got = out[len(noise):]
+        if out != ref_all and not (ref_all and ref_all[0].startswith('!fresh-process-failed')):
+            k = next((j for j, (a, b) in enumerate(zip(out, ref_all)) if a != b), 0)
+            rep.violation('failing-input', {'history': [list(map(str, o)) for o in ops], 'step': k,
+                                            'why': 'an operation of this history answers differently in this process (which ran other histories before) than in a process of its own',
+                                            'here': out[k][:400], 'own_process': ref_all[k][:400]})
         rep.count()
         if noise:
             rep.nontrivial(json.dumps([list(map(str, o)) for o in ops]))
